@@ -1,6 +1,8 @@
 """C18 – a link never carries more than its bandwidth in a tick; down links carry nothing."""
 from __future__ import annotations
 
+import datetime as _dt
+
 from vlib import chdriver
 from vlib.chdriver import all_of, assume, check, cover, fail, pick, pick_int, rng
 from vlib.fixtures import concrete, mk_host, new_sim, quiet
@@ -26,19 +28,38 @@ ASSUMPTIONS = [
     "before returning and returns a solver-chosen accept/reject - this is what a request/reply exchange does",
     "sizes >= 0, bandwidth > 0, all finite",
     "like the real Frame (size = length of its serialisation) a FakeFrame grows by a solver-chosen amount once an "
-    "interface stamps received_timestamp on it; the receiver stubs stamp before deciding, as the real interfaces do",
+    "interface stamps received_timestamp on it, and by another solver-chosen amount when the sending interface stamps "
+    "sent_timestamp on it; the receiver stubs stamp before deciding, as the real interfaces do",
+    "link_real_frames uses REAL frames (ARP/ICMP built and serialised by the real stack, real receive paths); only the "
+    "bandwidth is symbolic there; the wall clock is stubbed to a constant instant and the random ICMP identifier to a "
+    "constant (the serialised length of a frame depends on their digits, which would make paths non-replayable)",
     "f-strings of symbolic values (frame size in Link.transmit_frame's debug message) are rendered as a placeholder: in "
     "the functions encoded here formatted text only feeds logging",
 ]
 
 
+_FIXED_INSTANT = _dt.datetime(2026, 1, 1, 12, 0, 0, 123456)  # built at import time: a real (C) datetime
+
+
+class _FixedClock(_dt.datetime):
+    """Clock stub: a constant instant, so that the serialised length of a stamped frame (which depends on the digits
+    of the wall clock) is the same on every explored path."""
+
+    @classmethod
+    def now(cls, tz=None):
+        return _FIXED_INSTANT
+
+
 class FakeFrame:
     """size_Mbits mirrors the real Frame: its size is the length of its serialisation, which GROWS by a fixed amount
-    once an interface stamps received_timestamp on it (the real NICs stamp before deciding whether to accept)."""
+    once an interface stamps received_timestamp on it (the real NICs stamp before deciding whether to accept) and by
+    another amount when the sending interface stamps sent_timestamp on it (validated against the real Frame by
+    frame_growth_model)."""
 
-    def __init__(self, size, stamp_extra=0):
+    def __init__(self, size, stamp_extra=0, sent_extra=0):
         self._size = size
         self._extra = stamp_extra
+        self._sent_extra = sent_extra
         self.received_timestamp = None
         self.tcp = None
         self.udp = None
@@ -49,10 +70,11 @@ class FakeFrame:
 
     @property
     def size_Mbits(self):
-        return self._size + (self._extra if self.received_timestamp is not None else 0)
+        return self._size + (self._extra if self.received_timestamp is not None else 0) + (self._sent_extra if self.sent_timestamp is not None else 0)
 
     def set_sent_timestamp(self):
-        pass
+        if self.sent_timestamp is None:
+            self.sent_timestamp = "stamped"
 
     def set_received_timestamp(self):
         if self.received_timestamp is None:
@@ -81,10 +103,11 @@ def link_nested(
     acc1: bool, acc2: bool, acc3: bool, acc4: bool,
     tick_between: bool,
     ex: int,
+    exs: int,
 ):
     """Two top-level sends A->B; during delivery of a frame the receiver may send a reply (and the reply's receiver
     a reply to that) before returning. current_load and the data actually carried never exceed the bandwidth."""
-    assume(all_of(bw > 0, s1 >= 0, s2 >= 0, s3 >= 0, s4 >= 0, ex >= 0))
+    assume(all_of(bw > 0, s1 >= 0, s2 >= 0, s3 >= 0, s4 >= 0, ex >= 0, exs >= 0))
     with concrete():
         sim, a, b, link = _two_hosts()
         na, nb = a.network_interface[1], b.network_interface[1]
@@ -125,7 +148,7 @@ def link_nested(
             st["carried"] = st["carried"] + size_on_wire
         return ok
 
-    f1, f2, f3, f4, f2b = FakeFrame(s1, ex), FakeFrame(s2, ex), FakeFrame(s3, ex), FakeFrame(s4, ex), FakeFrame(s2, ex)
+    f1, f2, f3, f4, f2b = FakeFrame(s1, ex, exs), FakeFrame(s2, ex, exs), FakeFrame(s3, ex, exs), FakeFrame(s4, ex, exs), FakeFrame(s2, ex, exs)
     object.__setattr__(nb, "receive_frame", recv_b)
     object.__setattr__(na, "receive_frame", recv_a)
     na.send_frame(f1)
@@ -187,7 +210,11 @@ def link_toggle(bw: int, s1: int, s2: int, dis_a: bool, dis_b: bool, ticks: int,
     if dis_a or dis_b:
         cover("went_down")
         check(not link.is_up, "link reports up although an end interface is disabled")
-        check(link.current_load == 0, "a down link still reports load")
+        # (an earlier version demanded current_load == 0 on a down link; the property does not say that, and zeroing
+        # the load there is what let a re-enabled link carry twice its bandwidth in one tick)
+        load_down = link.current_load
+        check(not na.send_frame(FakeFrame(0)), "send_frame reported success over a down link")
+        check(link.current_load == load_down, "a send over a down link changed the link's load")
     t = 0
     for _ in range(pick_int(ticks, 1, 3)):
         t += 1
@@ -212,13 +239,115 @@ def link_toggle(bw: int, s1: int, s2: int, dis_a: bool, dis_b: bool, ticks: int,
     check(link.current_load <= link.bandwidth, "link.current_load exceeds link.bandwidth")
 
 
-def airspace_capacity(cap: int, s1: int, s2: int, s3: int, nested: bool, tick_between: bool, dis_b: bool):
+def link_same_tick(bw: int, s1: int, s2: int, s3: int, dis_a: bool, dis_b: bool, acc1: bool, exs: int):
+    """Within ONE tick: a send, then either/both ends are disabled and enabled again (blue NIC actions, a zero-duration
+    power cycle, an access-point reconfiguration), then two more sends. The data carried by the link in the tick stays
+    within the bandwidth."""
+    assume(all_of(bw > 0, s1 >= 0, s2 >= 0, s3 >= 0, exs >= 0))
+    with concrete():
+        sim, a, b, link = _two_hosts()
+        na, nb = a.network_interface[1], b.network_interface[1]
+        sim.pre_timestep(1)
+    link.bandwidth = bw
+    f1, f2, f3 = FakeFrame(s1, 0, exs), FakeFrame(s2, 0, exs), FakeFrame(s3, 0, exs)
+    st = {"carried": 0}
+
+    def recv(fr):
+        check(link.is_up, "frame delivered over a link that is not up")
+        ok = acc1 if fr is f1 else True
+        if ok:
+            st["carried"] = st["carried"] + fr.size_Mbits
+        return ok
+
+    object.__setattr__(nb, "receive_frame", recv)
+    object.__setattr__(na, "receive_frame", recv)
+    na.send_frame(f1)
+    check(st["carried"] <= link.bandwidth, "data carried in this tick exceeds the bandwidth")
+    if dis_a:
+        na.disable()
+    if dis_b:
+        nb.disable()
+    if dis_a:
+        na.enable()
+    if dis_b:
+        nb.enable()
+    if dis_a or dis_b:
+        cover("toggled")
+    check(link.is_up, "link not up after re-enabling both ends")
+    na.send_frame(f2)
+    nb.send_frame(f3)
+    check(link.current_load <= link.bandwidth, "link.current_load exceeds link.bandwidth")
+    check(
+        st["carried"] <= link.bandwidth,
+        lambda: "data carried by the link within one tick exceeds its bandwidth" + (" (an end interface was disabled and re-enabled in the tick)" if dis_a or dis_b else ""),
+    )
+    cover("same_tick_done")
+
+
+def link_real_frames(bw: float, pings: int, tick_between: bool, warm: bool):
+    """REAL frames (ARP and ICMP built, serialised and time-stamped by the real stack) between two real hosts over a
+    link whose bandwidth is a solver real of the order of one frame: after every Link.transmit_frame the load is within
+    the bandwidth, the data that entered a receiving interface in the tick (size on the wire, i.e. as it arrives) is
+    within the bandwidth, and the link's load equals it when idle."""
+    import types
+
+    from primaite.simulator.network.protocols import icmp as icmp_proto
+    from primaite.simulator.network.transmission import data_link_layer as dll
+
+    # randomness stub: the ICMP identifier is rendered in decimal inside the frame, so its digit count changes the frame size
+    icmp_proto.secrets = types.SimpleNamespace(randbits=lambda n: 4660)
+    assume(all_of(bw > 0, bw <= 0.02, rng(pings, 1, 2)))
+    dll.datetime = _FixedClock
+    with concrete():
+        sim, a, b, link = _two_hosts()
+        na, nb = a.network_interface[1], b.network_interface[1]
+        if warm:
+            a.ping("192.168.1.3")
+        sim.pre_timestep(1)
+    link.bandwidth = bw
+    st = {"carried": 0.0, "n": 0, "grew": False}
+    orig_a, orig_b = na.receive_frame, nb.receive_frame
+
+    def wrap(orig):
+        def recv(frame):
+            check(link.is_up, "frame delivered over a link that is not up")
+            size_on_wire = frame.size_Mbits
+            st["carried"] = st["carried"] + size_on_wire
+            st["n"] += 1
+            check(st["carried"] <= link.bandwidth, lambda: f"data carried in this tick exceeds the bandwidth after {st['n']} real frames")
+            r = orig(frame)
+            check(link.current_load <= link.bandwidth, "link.current_load exceeds link.bandwidth")
+            return r
+
+        return recv
+
+    object.__setattr__(nb, "receive_frame", wrap(orig_b))
+    object.__setattr__(na, "receive_frame", wrap(orig_a))
+    for i in range(pick_int(pings, 1, 2)):
+        a.ping("192.168.1.3", pings=2)
+        check(link.current_load <= link.bandwidth, "link.current_load exceeds link.bandwidth")
+        check(st["carried"] <= link.bandwidth, "data carried in this tick exceeds the bandwidth")
+        check(link.current_load == st["carried"], "link.current_load differs from the data that crossed the link in this tick")
+        if tick_between and i == 0:
+            sim.apply_timestep(1)
+            sim.pre_timestep(2)
+            check(link.current_load == 0, "load not reset at the start of the tick")
+            st["carried"] = 0.0
+            cover("real_tick")
+    if st["n"] > 0:
+        cover("real_carried")
+    if st["n"] == 0:
+        cover("real_dropped")
+    cover("real_done")
+
+
+def airspace_capacity(cap: int, s1: int, s2: int, s3: int, nested: bool, tick_between: bool, dis_b: bool, exs: int, rejoin: int):
     """Wireless channel: two real wireless routers share an AirSpace frequency; the data sent on the channel in a tick
     never exceeds its capacity (also when the receiver replies before returning), the load starts every tick at zero
     and a disabled wireless interface receives nothing."""
     from vlib.fixtures import mk_node
 
-    assume(all_of(cap > 0, s1 >= 0, s2 >= 0, s3 >= 0))
+    assume(all_of(cap > 0, s1 >= 0, s2 >= 0, s3 >= 0, exs >= 0, rng(rejoin, 0, 3)))
     with concrete():
         quiet()
         chdriver.OPAQUE_SYMBOLIC_FORMAT = True
@@ -234,41 +363,66 @@ def airspace_capacity(cap: int, s1: int, s2: int, s3: int, nested: bool, tick_be
         air = net.airspace
         freq = wa.frequency
     air.frequencies[freq.name].data_rate_bps = cap * 1024 * 1024  # capacity in Mbit as a solver integer
-    f1, f2, f3 = FakeFrame(s1), FakeFrame(s2), FakeFrame(s3)
+    f1, f2, f3 = FakeFrame(s1, 0, exs), FakeFrame(s2, 0, exs), FakeFrame(s3, 0, exs)
     got = []
+    st = {"sent": 0}
 
     def load():
         return air.bandwidth_load.get(freq.frequency_hz, 0)
 
     def after():
         check(load() <= cap, "wireless channel load exceeds the channel capacity")
+        check(st["sent"] <= cap, "the data sent on the wireless channel in this tick exceeds the channel capacity")
+
+    def send(w, f):
+        ok = w.send_frame(f)
+        if ok:
+            st["sent"] = st["sent"] + f.size_Mbits
+        return ok
 
     def recv_b(frame):
         got.append(frame)
         if frame is f1 and nested:
-            wb.send_frame(f2)
-            after()
+            send(wb, f2)
         return True
 
     object.__setattr__(wb, "receive_frame", recv_b)
     object.__setattr__(wa, "receive_frame", lambda fr: (got.append(fr), True)[1])
     if dis_b:
         wb.disable()
-    sent1 = wa.send_frame(f1)
+    sent1 = send(wa, f1)
     after()
-    if s1 > cap:
+    if s1 + exs > cap:
         check(not sent1 and f1 not in got, "a frame larger than the channel capacity was transmitted")
     if dis_b:
         cover("air_disabled")
         check(f1 not in got, "a disabled wireless interface received a frame")
+    # an interface leaves and re-joins the channel in the middle of the tick (NIC disable/enable, access-point
+    # reconfiguration): the channel's budget for the tick is unchanged
+    rj = pick_int(rejoin, 0, 3)
+    if rj == 1:
+        wb.disable()
+        wb.enable()
+    elif rj == 2:
+        with concrete():
+            rb.configure_wireless_access_point("192.168.9.2", "255.255.255.0")
+        object.__setattr__(rb.wireless_access_point, "receive_frame", recv_b)
+    elif rj == 3:
+        wa.disable()
+        wa.enable()
+    if rj:
+        cover("air_rejoin")
+        after()
     if tick_between:
         sim.pre_timestep(1)
         check(load() == 0, "wireless channel load not reset at the start of the tick")
+        st["sent"] = 0
         cover("air_tick")
     before = load()
-    sent3 = wa.send_frame(f3)
+    check(before == st["sent"], "the channel load differs from the data sent on the channel in this tick")
+    sent3 = send(wa, f3)
     after()
-    if before + s3 <= cap:
+    if before + s3 + exs <= cap:
         check(sent3, "a frame within the remaining channel capacity was dropped")
     else:
         check(not sent3, "a frame overflowing the channel capacity was transmitted")
@@ -476,12 +630,26 @@ HARNESSES = {
         "cover": ["went_down", "reused"],
         "bounds": "one send, then either/both/no end disabled, 1-3 ticks, re-enable, one more send; sizes/bandwidth unbounded solver integers",
     },
+    "link_same_tick": {
+        "fn": link_same_tick,
+        "quick": [{"fixed": {}, "timeout": 200}],
+        "thorough": [{"fixed": {}, "timeout": 400}],
+        "cover": ["toggled", "same_tick_done"],
+        "bounds": "one tick: a send, disable+enable of either/both/no end, two more sends (one per direction); sizes, sent-stamp growth and bandwidth unbounded solver integers; first delivery accepted or rejected",
+    },
+    "link_real_frames": {
+        "fn": link_real_frames,
+        "quick": [{"fixed": {"warm": w}, "timeout": 200} for w in (False, True)],
+        "thorough": [{"fixed": {"warm": w, "tick_between": t}, "timeout": 400} for w in (False, True) for t in (False, True)],
+        "cover": ["real_done", "real_carried", "real_dropped"],
+        "bounds": "real ARP/ICMP frames of 1-2 ping calls (2 echo requests each, cold or warm ARP cache), optional tick in between; bandwidth any real in (0, 0.02] Mbit (frames are ~0.003 Mbit)",
+    },
     "airspace_capacity": {
         "fn": airspace_capacity,
         "quick": [{"fixed": {}, "timeout": 200}],
         "thorough": [{"fixed": {}, "timeout": 400}],
-        "cover": ["air_done", "air_tick", "air_disabled"],
-        "bounds": "two wireless routers on one frequency, 2 top-level sends with an optional nested reply, optional tick in between, receiver enabled/disabled; sizes and capacity unbounded solver integers",
+        "cover": ["air_done", "air_tick", "air_disabled", "air_rejoin"],
+        "bounds": "two wireless routers on one frequency, 2 top-level sends with an optional nested reply, optional tick in between, receiver enabled/disabled, an interface optionally leaving and re-joining the channel mid-tick (disable/enable of either side, access-point reconfiguration); sizes and capacity unbounded solver integers",
     },
     "switch_flood": {
         "fn": switch_flood,
